@@ -26,6 +26,10 @@ pub fn small_doc() -> Vec<u8> {
         (6, stream(vec![("Filter", name("FlateDecode"))], &miniz_oxide::deflate::compress_to_vec_zlib(b"q 1 0 0 1 0 0 cm Q", 6))),
         (7, dict(vec![("Type", name("Page")), ("Parent", rf(4)), ("Resources", rf(5))])),
         (8, dict(vec![("Type", name("Page")), ("Parent", rf(4)), ("Contents", rf(6))])),
+        // not linked from the page tree: a node that is its own parent and a page below it. Their typed loads end in the
+        // recursion guard's error when run alone; with other loads in flight the guard must still see this thread's own entries
+        (9, dict(vec![("Type", name("Pages")), ("Parent", rf(9)), ("Kids", arr(vec![rf(10)])), ("Count", Obj::Int(1))])),
+        (10, dict(vec![("Type", name("Page")), ("Parent", rf(9))])),
     ];
     mkpdf::simple_doc(&objs, 1, vec![])
 }
@@ -122,6 +126,11 @@ fn shapes(tier: Tier) -> Vec<(String, Vec<Vec<Call>>)> {
         ("same-key-twice-vs-twice-other-type".into(), vec![vec![(5, 10), (5, 1)], vec![(5, 1), (5, 10)]]),
         // a typed load that fails (object 6 is a stream, not a resource dictionary): cached error and its re-evaluation path
         ("same-key-failing-load".into(), vec![vec![(6, 10)], vec![(6, 10), (6, 8)]]),
+        // a load that legitimately ends in the recursion guard (self-parent node) next to an ordinary load that finishes first or last
+        ("cyclic-parent-vs-ordinary".into(), vec![vec![(10, 3)], vec![(7, 3)]]),
+        ("ordinary-vs-cyclic-parent".into(), vec![vec![(7, 3)], vec![(10, 3)]]),
+        ("ordinary-vs-cyclic-node".into(), vec![vec![(7, 3)], vec![(9, 3)]]),
+        ("cyclic-parent-vs-cyclic-parent".into(), vec![vec![(10, 3)], vec![(9, 3)]]),
     ];
     if tier == Tier::Thorough {
         v.push(("three-threads-mixed".into(), vec![vec![(0, 12), (5, 10)], vec![(2, 12), (6, 8)], vec![(5, 1), (1, 12)]]));
